@@ -22,6 +22,9 @@ var hostileTargets = []string{
 	"/v1/params?string_map=a", "/v1/params?struct_value=1", "/v1/params?value=null", "/v1/params?recursive_list=1", "/v1/params?timestamp=9999999999&duration=x&field_mask=,,,",
 	"/v1/params/ENUM_VALUE/x/a/q/b/", "/v1/params/5/x/a//b/c:del", "/v1/get/" + strings.Repeat("a", 3000), "/v1/multi/" + strings.Repeat("x/", 300), "*", "/v1/unary?" + strings.Repeat("a=b&", 200),
 	"/v1/field/a/notanumber", "/v1/field/a/2147483648", "/v1/page/%00", "/v1/page/%ff%fe", "/v1/params?bytes_value=%%", "/v1/params?bytes_value=!!!", "/v1/params?oneof_double_value=1&oneof_enum_value=ENUM_VALUE",
+	// malformed field paths in query parameters
+	"/v1/params?string_value.=x", "/v1/params?nested.=x", "/v1/params?.string_value=x", "/v1/params?nested..string_value=x", "/v1/params?.=x", "/v1/params?=x", "/v1/params?nested.double_value_wrapper.=1",
+	"/v1/get/a?string_value.=x", "/v1/params?recursive.recursive.=1", "/v1/params?double_value_list.=1", "/v1/params?string_map.a=b", "/v1/params?timestamp.seconds=1", "/v1/params?[0]=1", "/v1/params?nested[double_value]=1",
 }
 
 var hostileHeaderValues = []string{"", " ", "x", "application/grpc+", "application/grpc-web+", "application/connect+", "application/", "application/json; charset=utf-8", "application/json;", "gzip, gzip", "identity", "br",
